@@ -24,7 +24,7 @@ CLAIMS = {
             'and race freedom for all call orders and interleavings (assuming a thread-safe allocator/libstdc++). It is a whole-program '
             'structural argument, not an exploration of schedules.', '4/C18'),
     'C04': ('recogniser skeleton extracted from the parser, bounded language equality against the reference grammar, structural rules for error recording/propagation and static rules',
-            'Decides, for every token sequence up to the bound (quick 9, thorough 14 tokens), that the real control flow of the parser '
+            'Decides, for every token sequence up to the bound (quick 13, thorough 17 tokens), that the real control flow of the parser '
             'accepts it without recording an error iff it is a sentence of the reference grammar - exhaustive within the bound, not '
             'sampled; a counterexample sentence is produced otherwise. Beyond the bound and for the generator-side static rules the '
             'check is structural (error recorded and blocking on the failing branch).', '4/C04'),
